@@ -10,6 +10,8 @@ it observed, as JSON.  Two uses:
   * the same with  --isolated  as second argument: every item is observed in its own forked
     child of a process that has imported htmltools and built / rendered nothing (the
     reference for "regardless of what was built or rendered earlier in the process").
+  * order seed 0 = the order given;  --raw=<item id>  keeps the rendered texts of that item (both are
+    used only after a difference has been seen, to show it and to find the earlier item that matters).
   * imported by harness/props/C18.py for the in-process reference run (`observe`).
 
 Everything printed is a digest, a name, a version string or an index: nothing that depends
@@ -30,6 +32,30 @@ Descriptions (JSON; tuples of harness/trees.py arrive as lists):
          | {"id", "kind": "text", "text": s, "deps": [payload...], "pattern": s|null}
          | {"id", "kind": "resolve", "deps": [payload...]}
          | {"id", "kind": "unique", "values": [s...]}
+         | {"id", "kind": "prog", "steps": [step...], "doc_kw": [[k, val]...]}
+                        a small program over the PUBLIC construction / mutation API (class Prog
+                        below); the object observed is TagList(*registers)
+
+Typed values of programs (a JSON scalar stands for itself: str, int, float, bool, null):
+  val ::= scalar | {"h": s} HTML(s) | {"u": s} str-subclass instance | {"hs": s} HTML-subclass instance
+        | {"js": s} jsx(s) | {"x": "obj"|"bytes"|"list"|"complex"} a value of an unsupported type
+        | {"css": [[k, val]...], "collapse": s} the result of css(**kw)
+        | {"l": [val...]} list | {"d": [[k, val]...]} dict
+        | {"r": i} the object in register i | {"n": node} a node description (see above)
+  arg ::= {"a": [[key, val]...]} an attribute dict | val (a child)
+  step ::= ["tag", name, ws|null, [arg...], [[k, val]...]]      Tag(name, *args, **kw)        -> new register
+         | ["fn", "tags"|"svg", name, [arg...], [[k, val]...]]  htmltools.tags.<name>(...)    -> new register
+         | ["jsx", name, [arg...], [[k, val]...]]               jsx_tag_create(name)(...)     -> new register
+         | ["list", [val...]]                                   TagList(*kids)                -> new register
+         | ["cons", [arg...], [[k, val]...]]    Tag("div", *consolidate_attrs(...))           -> new register
+         | ["copy"|"deepcopy"|"tagify", r]                                                    -> new register
+         | ["add_class", r, val, prepend] | ["remove_class", r, val] | ["add_style", r, val, prepend]
+         | ["set", r, key, val] | ["upd", r, [[[k, val]...]...], [[k, val]...]] | ["del", r, key]
+         | ["append", r, [val...]] | ["extend", r, [val...]] | ["insert", r, i, val] | ["iadd", r, [val...]]
+         | ["has_class", r, val] | ["get", r, key] | ["attrs", r] | ["render", r]      (results go to the trace)
+         | ["css", [[k, val]...], collapse] | ["escape", s, attr]                      (results go to the trace)
+A step that raises is recorded in the trace as [index, "err", <exception class name>] and the
+program goes on (a creating step then leaves None in its register).
 """
 from __future__ import annotations
 
@@ -134,6 +160,141 @@ class Builder:
         raise ValueError(d)
 
 
+# ----------------------------------------------------------------------------------------
+# programs over the public construction / mutation API
+# ----------------------------------------------------------------------------------------
+def _short(v):
+    s = str(v)
+    return s if len(s) <= 160 else s[:150] + "...#" + digest(s)[:12]
+
+
+class Prog:
+    """Interpreter of the step language described in the module docstring.  Only public API is
+    called (Tag / tag functions / TagList / attrs / class and style helpers / css / consolidate_attrs /
+    copy / tagify; JSX components through htmltools._jsx.jsx_tag_create)."""
+
+    def __init__(self, bld: Builder) -> None:
+        self.b = bld
+        self.regs: list = []
+        self.trace: list = []
+
+    # -- values --------------------------------------------------------------------------
+    def val(self, v):
+        if isinstance(v, list):
+            return [self.val(y) for y in v]
+        if not isinstance(v, dict):
+            return v
+        if "h" in v:
+            return HTML(v["h"])
+        if "u" in v:
+            return trees.StrSub(v["u"])
+        if "hs" in v:
+            return trees.HtmlSub(v["hs"])
+        if "js" in v:
+            from htmltools._jsx import jsx
+            return jsx(v["js"])
+        if "x" in v:
+            return {"obj": object(), "bytes": b"x", "list": [1, 2], "complex": 1j}[v["x"]]
+        if "css" in v:
+            return css(v.get("collapse", ""), **{k: self.val(y) for k, y in v["css"]})
+        if "l" in v:
+            return [self.val(y) for y in v["l"]]
+        if "d" in v:
+            return {k: self.val(y) for k, y in v["d"]}
+        if "r" in v:
+            return self.regs[v["r"]]
+        if "n" in v:
+            return self.b.node(v["n"])
+        raise ValueError(v)
+
+    def args(self, args):
+        return [({k: self.val(y) for k, y in a["a"]} if isinstance(a, dict) and "a" in a else self.val(a))
+                for a in args]
+
+    def kw(self, kw):
+        return {k: self.val(y) for k, y in kw}
+
+    # -- steps ---------------------------------------------------------------------------
+    def step(self, st):
+        op = st[0]
+        R = self.regs
+        if op == "tag":
+            extra = {} if st[2] is None else {"_add_ws": st[2]}
+            return "new", Tag(st[1], *self.args(st[3]), **extra, **self.kw(st[4]))
+        if op == "fn":
+            f = getattr(htmltools.svg if st[1] == "svg" else tags, st[2])
+            return "new", f(*self.args(st[3]), **self.kw(st[4]))
+        if op == "jsx":
+            from htmltools._jsx import jsx_tag_create
+            return "new", jsx_tag_create(st[1])(*self.args(st[2]), **self.kw(st[3]))
+        if op == "list":
+            return "new", TagList(*self.args(st[1]))
+        if op == "cons":
+            attrs, kids = htmltools.consolidate_attrs(*self.args(st[1]), **self.kw(st[2]))
+            return "new", Tag("div", attrs, *kids)
+        if op == "copy":
+            return "new", copy.copy(R[st[1]])
+        if op == "deepcopy":
+            return "new", copy.deepcopy(R[st[1]])
+        if op == "tagify":
+            return "new", R[st[1]].tagify()
+        t = R[st[1]] if op not in ("css", "escape") else None
+        if op == "add_class":
+            t.add_class(self.val(st[2]), prepend=st[3])
+        elif op == "remove_class":
+            t.remove_class(self.val(st[2]))
+        elif op == "add_style":
+            t.add_style(self.val(st[2]), prepend=st[3])
+        elif op == "set":
+            t.attrs[st[2]] = self.val(st[3])
+        elif op == "upd":
+            t.attrs.update(*[{k: self.val(y) for k, y in d} for d in st[2]], **self.kw(st[3]))
+        elif op == "del":
+            del t.attrs[st[2]]
+        elif op == "append":
+            t.append(*self.args(st[2]))
+        elif op == "extend":
+            t.extend(self.args(st[2]))
+        elif op == "insert":
+            t.insert(st[2], self.val(st[3]))
+        elif op == "iadd":
+            t.children += self.args(st[2])
+        elif op == "has_class":
+            return "obs", bool(t.has_class(self.val(st[2])))
+        elif op == "get":
+            v = t.attrs.get(st[2])
+            return "obs", None if v is None else _short(v)
+        elif op == "attrs":
+            return "obs", [[k, _short(v)] for k, v in t.attrs.items()]
+        elif op == "render":
+            return "obs", digest(str(t))
+        elif op == "css":
+            return "obs", css(st[2], **self.kw(st[1]))
+        elif op == "escape":
+            return "obs", htmltools.html_escape(st[1], st[2])
+        else:
+            raise ValueError(st)
+        return "done", None
+
+    def run(self, steps) -> None:
+        creating = ("tag", "fn", "jsx", "list", "cons", "copy", "deepcopy", "tagify")
+        for i, st in enumerate(steps):
+            try:
+                what, v = self.step(st)
+            except RecursionError:
+                what, v = "err", "RecursionError"
+            except Exception as e:  # noqa: BLE001 - fault paths are part of the language
+                what, v = "err", type(e).__name__
+            if what == "new":
+                self.regs.append(v)
+            elif what == "obs":
+                self.trace.append([i, "ok", v])
+            elif what == "err":
+                self.trace.append([i, "err", v])
+                if st[0] in creating:
+                    self.regs.append(None)
+
+
 def _dep_full(name, version, **kw):
     return HTMLDependency(name, version, **kw)
 
@@ -197,8 +358,10 @@ def observe_object(mk, doc_kw, raw: bool, doc_opts=()) -> dict:
     b = safe(mk)
     if b[0] == "err":
         return {"build": b}
-    x, hc_log = b[1]
+    x, hc_log = b[1][0], b[1][1]
     out["build"] = ["ok", None]
+    if len(b[1]) > 2:
+        out["trace"] = b[1][2]
     out["hc"] = [[n, digest(c)] for n, c in hc_log]
     if raw:
         out["_hc_raw"] = hc_log
@@ -280,6 +443,14 @@ def observe(item: dict, raw: bool = False) -> dict:
             kids = [bld.node(d) for d in item["descs"]]
             return TagList(*kids), bld.hc_log
         return observe_object(mk, item.get("doc_kw", []), raw, item.get("doc_opts", []))
+    if k == "prog":
+        def mk3():
+            bld = Builder()
+            pr = Prog(bld)
+            pr.run(item["steps"])
+            return TagList(*[r for r in pr.regs if r is not None]), bld.hc_log, pr.trace
+        return observe_object(mk3, [[kk, Prog(Builder()).val(vv)] for kk, vv in item.get("doc_kw", [])], raw,
+                              item.get("doc_opts", []))
     if k == "expr":
         def mk2():
             return EXPRS[item["name"]](), []
@@ -318,12 +489,15 @@ def main() -> None:
     battery = json.load(sys.stdin)
     items = battery["items"]
     perm = list(range(len(items)))
-    random.Random(order_seed).shuffle(perm)
+    if order_seed != 0:                 # 0: the order given (used to look for the earlier item that matters)
+        random.Random(order_seed).shuffle(perm)
     results = {}
-    isolated = len(sys.argv) > 2 and sys.argv[2] == "--isolated"
+    isolated = "--isolated" in sys.argv[2:]
+    # --raw=<id>: the observation of that item keeps the texts themselves (fields _html_raw, _doc_raw, ...)
+    raw_ids = {a[len("--raw="):] for a in sys.argv[2:] if a.startswith("--raw=")}
     for i in perm:
         if not isolated:
-            results[items[i]["id"]] = observe(items[i])
+            results[items[i]["id"]] = observe(items[i], raw=items[i]["id"] in raw_ids)
             continue
         # a child forked from a process that has built and rendered nothing
         rfd, wfd = os.pipe()
